@@ -22,6 +22,24 @@ class Pair(object):  # pylint: disable=too-few-public-methods
         self.compose_must_match = compose_must_match
 
 
+class ConstructionFailure(object):  # pylint: disable=too-few-public-methods
+    """A maker raised while building the library object: a public constructor refused values the generator holds to be valid."""
+
+    def __init__(self, label, error):
+        self.label = label
+        self.error = error
+
+
+def guarded(maker, rng, failures):
+    """maker(rng) as a list of Pairs; when it raises, one ConstructionFailure (or nothing when failures are not wanted)."""
+    try:
+        result = maker(rng)
+    except Exception as e:  # pylint: disable=broad-except
+        name = getattr(maker, '__name__', 'maker').strip('<>') or 'maker'
+        return [ConstructionFailure(name, e)] if failures else []
+    return result if isinstance(result, list) else [result]
+
+
 def _mods():
     import cryptoparser.tls.extension as ext  # pylint: disable=import-outside-toplevel
     import cryptoparser.tls.grease as grease  # pylint: disable=import-outside-toplevel
@@ -212,7 +230,13 @@ def hello_random_pair(rng):
     _, _, _, sub, _, _, _ = _mods()
     seconds = rng.choice([0, 1, 2 ** 31 - 1, 2 ** 31, 2 ** 32 - 1, rng.randrange(2 ** 32), 1600000000])
     tail = rbytes(rng, 28)
-    lib = sub.TlsHandshakeHelloRandom(datetime.datetime.utcfromtimestamp(seconds), sub.TlsHandshakeHelloRandomBytes(tail))
+    if rng.random() < 0.5:
+        moment = datetime.datetime.utcfromtimestamp(seconds)      # the library's convention: naive means UTC
+    else:
+        # the same instant as an aware datetime in some other zone (hours, half and quarter hours, both signs)
+        offset = datetime.timedelta(minutes=rng.choice([0, 60, -300, 330, 345, -570, 765, 840, -720]))
+        moment = datetime.datetime.fromtimestamp(seconds, datetime.timezone(offset))
+    lib = sub.TlsHandshakeHelloRandom(moment, sub.TlsHandshakeHelloRandomBytes(tail))
     return lib, ref.hello_random(seconds, tail)
 
 
@@ -410,19 +434,18 @@ def single_extensions(rng):
     return pairs
 
 
-def generate(rng, count):
-    """Yield `count`-ish Pairs over every supported structure."""
-    makers = [client_hello, client_hello, client_hello_scsv_anywhere, server_hello, lambda r: server_hello(r, retry=True),
+def generate(rng, count, failures=False):
+    """Yield `count`-ish Pairs over every supported structure (and ConstructionFailures when asked for)."""
+    makers = [client_hello, client_hello, client_hello_scsv_anywhere, server_hello, server_hello_retry,
               certificate, server_key_exchange, certificate_request, certificate_status, server_hello_done, alert,
-              change_cipher_spec, tls_record]
+              change_cipher_spec, tls_record, ssl2_records, single_extensions]
     produced = 0
     while produced < count:
         for maker in makers:
-            yield maker(rng)
-            produced += 1
-        for pair in ssl2_records(rng):
-            yield pair
-            produced += 1
-        for pair in single_extensions(rng):
-            yield pair
-            produced += 1
+            for pair in guarded(maker, rng, failures):
+                yield pair
+                produced += 1
+
+
+def server_hello_retry(rng):
+    return server_hello(rng, retry=True)
